@@ -42,7 +42,30 @@ func genEngineScenario(runSeed uint64, tier string, nReq int) *gen.Scenario {
 	for _, t := range sc.Tuples {
 		stored[t.Key()] = true
 	}
+	// a third of the scenarios get explicit userset cycles (with a member and a dead end hanging off)
+	var cycleAtoms []string
+	if g.Chance(0.35) {
+		ct, atoms := g.CycleTuples(sc.Model)
+		for _, t := range ct {
+			if !stored[t.Key()] && !sc.Model.AmbiguousCondShape(t) {
+				stored[t.Key()] = true
+				sc.Tuples = append(sc.Tuples, t)
+			}
+		}
+		cycleAtoms = atoms
+	}
 	sc.Requests = g.CheckRequests(sc.Model, nReq, [3]float64{0.7, 0.1, 0.2})
+	// requests aimed at the cycle, in cycle order, for one subject
+	if len(cycleAtoms) > 0 && nReq > 0 {
+		u := "user:" + []string{"a", "b", "c"}[g.Intn(3)]
+		for i, a := range cycleAtoms {
+			if i >= len(sc.Requests) {
+				break
+			}
+			o, r, _ := cut(a, "#")
+			sc.Requests[i] = gen.Request{Kind: "check", Obj: o, Rel: r, User: u}
+		}
+	}
 	// contextual tuples on some requests
 	for i := range sc.Requests {
 		if g.Chance(0.2) {
@@ -63,6 +86,15 @@ func genEngineScenario(runSeed uint64, tier string, nReq int) *gen.Scenario {
 	sc.Knobs["level"] = int64(g.Intn(2)) // 0 = command with SimPlanner, 1 = Server.Check
 	sc.Knobs["optimizations"] = int64(g.Intn(2))
 	return sc
+}
+
+func cut(s, sep string) (string, string, bool) {
+	for i := 0; i+len(sep) <= len(s); i++ {
+		if s[i:i+len(sep)] == sep {
+			return s[:i], s[i+len(sep):], true
+		}
+	}
+	return s, "", false
 }
 
 // unambiguous drops tuples whose condition is only allowed for another shape of the same user type
